@@ -225,8 +225,12 @@ def bad_pickle(rng):
   return struct.pack('!L', len(p)) + p, k
 
 
+def _failing_subscriber(tag, metric, datapoint):
+  raise RuntimeError('subscriber failure (injected)')
+
+
 class Run(object):
-  def __init__(self, wm, proto, pickle_max=2 ** 20, flow=False, idle=None):
+  def __init__(self, wm, proto, pickle_max=2 ** 20, flow=False, idle=None, failing=False):
     self.wm, self.proto = wm, proto
     wm.settings['METRIC_CLIENT_IDLE_TIMEOUT'] = idle     # read when a connection is made / a datapoint arrives
     from twisted.internet import task as _task
@@ -235,6 +239,11 @@ class Run(object):
     wm.settings['PICKLE_RECEIVER_MAX_LENGTH'] = pickle_max     # read by the receiver's constructor
     self.seen = []
     wm.events.metricReceived.handlers[:] = list(wm.base)
+    if failing:
+      # another subscriber of the event fails for every datapoint (a callable without __name__): the event
+      # dispatcher isolates it - the listener is not affected and the other subscribers still get the datapoint
+      import functools
+      wm.events.metricReceived.addHandler(functools.partial(_failing_subscriber, 'x'))
     wm.events.metricReceived.addHandler(lambda m, dp: self.seen.append((m, dp[0], dp[1])))
     wm.state.connectedMetricReceiverProtocols.clear()
     wm.state.metricReceiversPaused = False
@@ -280,12 +289,12 @@ class Run(object):
       pass
 
 
-def execute(wm, proto, frames, cuts, expected_dps, res=0, pause_at=0, idle=None):
+def execute(wm, proto, frames, cuts, expected_dps, res=0, pause_at=0, idle=None, failing=False):
   """frames: list of dict(bytes, kind, trip, dps); cuts: byte offsets (sorted) where the stream is cut
   (for udp: datagram boundaries, aligned with frames).  Returns the trace record."""
   stream = b''.join(f['bytes'] for f in frames)
   # the default maximum frame length unless the stream contains an over-long frame (kept small on purpose)
-  run = Run(wm, proto, pickle_max=PICKLE_MAX if any(f['kind'] == 'over' for f in frames) else 2 ** 20, flow=bool(pause_at), idle=idle)
+  run = Run(wm, proto, pickle_max=PICKLE_MAX if any(f['kind'] == 'over' for f in frames) else 2 ** 20, flow=bool(pause_at), idle=idle, failing=failing)
   segs = []
   allids = {}
   nid = 0
